@@ -10,6 +10,7 @@ import (
 	"strings"
 	"time"
 
+	"github.com/ngicks/gokugen/cron"
 	"github.com/ngicks/gokugen/def"
 	"github.com/ngicks/gokugen/repository"
 	"github.com/ngicks/gokugen/repository/inmemory"
@@ -33,6 +34,11 @@ type schedWorld struct {
 	obs   *repository.Repository
 	sch   *scheduler.Scheduler
 	next  string
+	// target is what the scheduler talks to: the observable repository, or (cron configuration)
+	// scheduler.VolatileTaskRepo over a real CronStore
+	target scheduler.Repository
+	cron   *cron.CronStore
+	cents  []cronEnt
 
 	// injections for the scheduler call about to happen (per Step): call index -> items
 	inj     map[int][]string
@@ -59,14 +65,48 @@ func newSchedWorld(workers int) *schedWorld {
 	w.timer = repository.NewMutationHookTimer()
 	w.timer.VerifSetClock(w.clk)
 	w.obs = repository.New(w.core, w.timer)
+	w.target = w.obs
 	w.sch = scheduler.NewScheduler(&schedProxy{w}, &simDispatcher{w})
 	w.sch.VerifSetClock(w.clk)
 	return w
 }
 
+// newSchedCronWorld: the real Scheduler over scheduler.VolatileTaskRepo over a real CronStore.
+func newSchedCronWorld(workers int, r *rng.R) *schedWorld {
+	w := &schedWorld{clk: vclock.New(T0), workers: workers, chans: map[string]chan error{}}
+	exprs := []string{"*/5 * * * *", "0 */5 * * * *", "30 */5 * * * *", "@every 7m", "*/10 * * * *"}
+	for i := 1; i <= 4; i++ {
+		sched, raw, _ := parseCronExpr(rng.Pick(r, exprs))
+		_ = sched
+		p := def.TaskUpdateParam{WorkId: option.Some("w" + strconv.Itoa(i)), Priority: option.Some(r.Intn(3) - 1)}
+		row, err := cron.RowRaw{Param: p, Schedule: raw}.Parse()
+		if err != nil {
+			continue
+		}
+		w.cents = append(w.cents, cronEnt{name: "e" + strconv.Itoa(i), entry: cron.NewEntry(T0, row)})
+	}
+	st, _ := cron.NewCronStore(nil)
+	st.VerifSetClock(w.clk)
+	w.cron = st
+	st.EditTask(func(_ []*cron.Entry) []*cron.Entry { return []*cron.Entry{w.cents[0].entry, w.cents[1].entry} })
+	w.target = scheduler.NewVolatileTaskRepo(st)
+	w.sch = scheduler.NewScheduler(&schedProxy{w}, &simDispatcher{w})
+	w.sch.VerifSetClock(w.clk)
+	return w
+}
+
+func (w *schedWorld) setHookFault(b bool) {
+	if w.core != nil {
+		w.core.failNext = b
+	}
+}
+
 func (w *schedWorld) log(s string) { w.out = append(w.out, s) }
 
 func (w *schedWorld) stLine() {
+	if w.cron != nil {
+		return
+	}
 	armed, dl, pending := w.clk.State()
 	a := "-"
 	if armed {
@@ -87,6 +127,39 @@ func (w *schedWorld) stLine() {
 // userOp executes `add|upd|can <hf> <id> [param6]` through the observable repository.
 func (w *schedWorld) userOp(tok []string) {
 	ctx := context.Background()
+	if tok[0] == "edit" { // cron configuration: edit <add,|-> <rem,|->
+		add, rem := namesTok(tok[1]), namesTok(tok[2])
+		find := func(n string) *cron.Entry {
+			for _, e := range w.cents {
+				if e.name == n {
+					return e.entry
+				}
+			}
+			return nil
+		}
+		err := w.cron.EditTask(func(entries []*cron.Entry) []*cron.Entry {
+			var keep []*cron.Entry
+			for _, e := range entries {
+				drop := false
+				for _, r := range rem {
+					if find(r) == e {
+						drop = true
+					}
+				}
+				if !drop {
+					keep = append(keep, e)
+				}
+			}
+			for _, a := range add {
+				if e := find(a); e != nil {
+					keep = append(keep, e)
+				}
+			}
+			return keep
+		})
+		w.log("u " + strings.Join(tok, " ") + " -> " + proto.Res(err))
+		return
+	}
 	w.core.failNext = tok[1] != "-"
 	id, _ := proto.UnStr(tok[2])
 	resp := "ok"
@@ -149,31 +222,31 @@ func hfTok(b bool) string {
 
 func (p *schedProxy) LastTimerUpdateError() error {
 	p.w.before()
-	err := p.w.obs.LastTimerUpdateError()
+	err := p.w.target.LastTimerUpdateError()
 	p.w.log("q lasterr -> " + proto.Err(err))
 	return err
 }
 func (p *schedProxy) StartTimer(ctx context.Context) {
 	_, hf := p.w.before()
-	p.w.core.failNext = hf
-	p.w.obs.StartTimer(ctx)
-	p.w.core.failNext = false
+	p.w.setHookFault(hf)
+	p.w.target.StartTimer(ctx)
+	p.w.setHookFault(false)
 	p.w.log("q start " + hfTok(hf) + " -> ok")
 	p.w.stLine()
 }
 func (p *schedProxy) StopTimer() {
 	p.w.before()
-	p.w.obs.StopTimer()
+	p.w.target.StopTimer()
 	p.w.log("q stop -> ok")
 	p.w.stLine()
 }
 func (p *schedProxy) NextScheduled() (time.Time, bool) {
 	p.w.before()
-	t, ok := p.w.obs.NextScheduled()
+	t, ok := p.w.target.NextScheduled()
 	p.w.log(fmt.Sprintf("q nextsched -> %s %s", proto.Time(t), b01(ok)))
 	return t, ok
 }
-func (p *schedProxy) TimerChannel() <-chan time.Time { return p.w.obs.TimerChannel() }
+func (p *schedProxy) TimerChannel() <-chan time.Time { return p.w.target.TimerChannel() }
 
 func (p *schedProxy) GetById(ctx context.Context, id string) (def.Task, error) {
 	f, _ := p.w.before()
@@ -182,7 +255,7 @@ func (p *schedProxy) GetById(ctx context.Context, id string) (def.Task, error) {
 	if f != "-" {
 		err = errTransient
 	} else {
-		t, err = p.w.obs.GetById(ctx, id)
+		t, err = p.w.target.GetById(ctx, id)
 	}
 	if err != nil {
 		p.w.log(fmt.Sprintf("q getbyid %s %s -> %s", f, proto.Str(id), proto.Res(err)))
@@ -198,7 +271,7 @@ func (p *schedProxy) GetNext(ctx context.Context) (def.Task, error) {
 	if f != "-" {
 		err = errTransient
 	} else {
-		t, err = p.w.obs.GetNext(ctx)
+		t, err = p.w.target.GetNext(ctx)
 	}
 	if err != nil {
 		p.w.log(fmt.Sprintf("q getnext %s -> %s", f, proto.Res(err)))
@@ -214,9 +287,9 @@ func (p *schedProxy) MarkAsDispatched(ctx context.Context, id string) error {
 	case "fb":
 		err = errTransient
 	default:
-		p.w.core.failNext = hf
-		err = p.w.obs.MarkAsDispatched(ctx, id)
-		p.w.core.failNext = false
+		p.w.setHookFault(hf)
+		err = p.w.target.MarkAsDispatched(ctx, id)
+		p.w.setHookFault(false)
 		if f == "fa" {
 			err = errTransient
 		}
@@ -232,7 +305,7 @@ func (p *schedProxy) MarkAsDone(ctx context.Context, id string, werr error) erro
 	case "fb":
 		err = errTransient
 	default:
-		err = p.w.obs.MarkAsDone(ctx, id, werr)
+		err = p.w.target.MarkAsDone(ctx, id, werr)
 		if f == "fa" {
 			err = errTransient
 		}
@@ -374,7 +447,7 @@ func (w *schedWorld) mustRetry() bool {
 }
 
 func (w *schedWorld) needsRestart() bool {
-	if w.obs.LastTimerUpdateError() != nil {
+	if w.target.LastTimerUpdateError() != nil {
 		return true
 	}
 	return w.hasLast && (w.last.State() == scheduler.NextTask || w.last.State() == scheduler.TimerUpdateError) && w.last.Err() != nil
@@ -534,6 +607,9 @@ func parseInj(toks []string) map[int][]string {
 func (w *schedWorld) quiesce() {
 	w.log("quiesce")
 	horizon := T0.Add(time.Hour)
+	if w.cron != nil {
+		horizon = T0.Add(40 * time.Minute)
+	}
 	for iter := 0; iter < 160; iter++ {
 		if w.mustRetry() {
 			// "a worker is free": before retrying a failed dispatch make room
@@ -553,7 +629,7 @@ func (w *schedWorld) quiesce() {
 			w.complete("oldest", "nil")
 			continue
 		}
-		if armed, dl, _ := w.clk.State(); armed {
+		if armed, dl, _ := w.clk.State(); armed && (w.cron == nil || !dl.After(horizon)) {
 			w.clk.Set(dl)
 			w.log("adv " + proto.Time(dl))
 			w.stLine()
@@ -569,6 +645,14 @@ func (w *schedWorld) quiesce() {
 		}
 		break
 	}
+	if w.cron != nil {
+		head := "-"
+		if t, err := w.cron.Peek(context.Background()); err == nil {
+			head = proto.Time(t.ScheduledAt)
+		}
+		w.log("finalcron " + proto.Time(w.clk.Now()) + " " + head)
+		return
+	}
 	// final dump
 	ts, _ := w.mem.Find(context.Background(), def.TaskQueryParam{}, 0, -1)
 	w.log("final " + proto.Time(w.clk.Now()) + " " + proto.Tasks(ts))
@@ -581,8 +665,15 @@ func schedExec(h sim.History) []string {
 	if f := strings.Fields(h.Header); len(f) >= 3 {
 		workers, _ = strconv.Atoi(f[2])
 	}
-	w := newSchedWorld(workers)
-	w.log(fmt.Sprintf("new sched %s %d", proto.Time(T0), workers))
+	var w *schedWorld
+	if strings.HasPrefix(h.Header, "new schedcron") {
+		seed, _ := strconv.ParseUint(strings.Fields(h.Header)[3], 10, 64)
+		w = newSchedCronWorld(workers, rng.New(seed))
+		w.log(fmt.Sprintf("new schedcron %s %d", proto.Time(T0), workers))
+	} else {
+		w = newSchedWorld(workers)
+		w.log(fmt.Sprintf("new sched %s %d", proto.Time(T0), workers))
+	}
 	qctx, qcancel := context.WithCancel(context.Background())
 	qdone := make(chan struct{})
 	go func() { w.sch.RunQueue(qctx); close(qdone) }()
@@ -594,7 +685,7 @@ func schedExec(h sim.History) []string {
 		}
 	}()
 	// the driver starts the timer once, as gokugen's example does
-	w.obs.StartTimer(context.Background())
+	w.target.StartTimer(context.Background())
 	w.log("start")
 	w.stLine()
 	for _, line := range h.Ops {
@@ -641,6 +732,7 @@ func mustUnStr(s string) string { v, _ := proto.UnStr(s); return v }
 // ---------------------------------------------------------------------------------------------
 
 type schedGen struct {
+	cron   bool
 	ties   bool // tie-heavy profile: two times, two priorities, many priority-only updates
 	r      *rng.R
 	adds   int
@@ -652,6 +744,19 @@ var schedTimes = []time.Duration{5 * time.Second, 10 * time.Second, 15 * time.Se
 
 func (g *schedGen) userOp() string {
 	r := g.r
+	if g.cron {
+		all := []string{"e1", "e2", "e3", "e4"}
+		var add, rem []string
+		for _, n := range all {
+			switch r.Intn(5) {
+			case 0:
+				add = append(add, n)
+			case 1:
+				rem = append(rem, n)
+			}
+		}
+		return "edit " + joinNames(add) + " " + joinNames(rem)
+	}
 	if g.ties {
 		id := func() string {
 			if g.adds == 0 {
@@ -724,9 +829,12 @@ func (g *schedGen) injections() string {
 	return " " + strings.Join(items, " ")
 }
 
-func genSchedHistory(r *rng.R, length int, faults int, workers int, ties bool) sim.History {
-	g := &schedGen{r: r, now: T0, faults: faults, ties: ties}
+func genSchedHistory(r *rng.R, length int, faults int, workers int, ties bool, cronCfg bool) sim.History {
+	g := &schedGen{r: r, now: T0, faults: faults, ties: ties, cron: cronCfg}
 	h := sim.History{Header: fmt.Sprintf("new sched %d", workers)}
+	if cronCfg {
+		h.Header = fmt.Sprintf("new schedcron %d %d", workers, r.U64()%1000000)
+	}
 	for k := 0; k < length; k++ {
 		switch w := r.Intn(100); {
 		case w < 22:
@@ -735,6 +843,9 @@ func genSchedHistory(r *rng.R, length int, faults int, workers int, ties bool) s
 			g.now = T0.Add(time.Duration(r.Intn(12)) * 5 * time.Second)
 			if g.ties {
 				g.now = T0.Add(time.Duration(r.Intn(3)) * 5 * time.Second)
+			}
+			if g.cron {
+				g.now = T0.Add(time.Duration(r.Intn(30)) * time.Minute)
 			}
 			h.Ops = append(h.Ops, "adv "+proto.Time(g.now))
 		case w < 76:
@@ -754,6 +865,7 @@ func cmdSched(args []string) {
 	fs := flag.NewFlagSet("sched", flag.ExitOnError)
 	c.register(fs)
 	faults := fs.Int("faults", 0, "0 none, 1 sparse, 2 several")
+	cronCfg := fs.Bool("cron", false, "cron configuration: Scheduler over VolatileTaskRepo over a real CronStore (monitors only)")
 	ties := fs.Bool("ties", false, "tie-heavy profile (two times, two priorities, priority-only updates)")
 	workers := fs.Int("slots", 2, "dispatcher slots (0 = random 1..3)")
 	fs.Parse(args)
@@ -775,7 +887,7 @@ func cmdSched(args []string) {
 			if ws == 0 {
 				ws = 1 + r.Intn(3)
 			}
-			h := genSchedHistory(r, c.length, *faults, ws, *ties)
+			h := genSchedHistory(r, c.length, *faults, ws, *ties, *cronCfg)
 			return h, schedExec(h)
 		})
 	}
